@@ -148,7 +148,9 @@ class TranslateNode(Node, TranslatableTag):
         """
         try:
             return to_int(block_scope.get(self.message_count_var, 1))  # defaults to 1
-        except ValueError:
+        except (ValueError, TypeError, OverflowError):
+            # Not a number at all (nil, a hash, a range, inf ...): count as one,
+            # just like a string that does not look like a number.
             return 1
 
     def resolve_message_context(
